@@ -24,7 +24,7 @@ RULE = ("Cases: pairs (25% independent, 75% b=mutate(a): element insert/delete/d
         "lists, as multisets otherwise), that Remove/Insert name the edited container, that key/value, "
         "tag/attribute/text/children and per-character sub-edits pair corresponding components, and that the whole "
         "script reconstructs canonical(a) when inserts are dropped and canonical(b) when removes are dropped; the "
-        "removed/inserted/matched_to annotations of TreeNode.diff must agree with the script. Non-trivial: unequal "
+        "removed/inserted/matched_to annotations of TreeNode.diff must agree with the script, also when the result of one diff is diffed again. Non-trivial: unequal "
         "pair whose script has a Remove or Insert, or a compound edit nested inside another. Distinct by case hash.")
 ASSUMPTIONS = [
     "elements are compared by canonical value modulo Python numeric equality (True == 1 == 1.0), the engine's own "
@@ -202,4 +202,18 @@ def check(case):
         pd = plain(d)
     if pd != ea:
         out.fail('diff-tree-not-first-document', f"diff tree without inserted nodes is {pd!r}, first document is {ea!r}")
+    if out.failures:
+        return out
+    # the result of a diff is itself a document: diff it again (against the first document, to which it is equal as data)
+    with guard('build'):
+        a3 = gen.build(case, 'a')
+    with guard('diff of a diff result'):
+        d2 = d.diff(a3)
+    with guard('annotations of the second diff'):
+        before = len(out.failures)
+        check_annotations(d2, out)
+        pd2 = plain(d2)
+    out.failures[before:] = [('second-diff-' + k, dd) for k, dd in out.failures[before:]]
+    if pd2 != ea:
+        out.fail('second-diff-tree-not-first-document', f"diffing a diff result again gives a tree that reads {pd2!r}, not {ea!r}")
     return out
